@@ -45,6 +45,10 @@ pub fn norm_str(s: &str) -> String {
       i += 1;
       continue;
     }
+    // prettyplease adds a trailing comma when it wraps a list over several lines
+    if matches!(c, '>' | ')' | ']' | '}') && out.ends_with(',') {
+      out.pop();
+    }
     out.push(c);
     i += 1;
   }
